@@ -483,6 +483,34 @@ def arg_symbolic(prog: Program) -> RuleResult:
         r.check(not missing, "Variable._update_child_vars_from_kwargs_#every-expression-kind", site(f, t), src(t.test)[:80], f"all {len(concrete)} concrete expression classes are kept symbolic",
                 f"arguments of kind {missing} are wrapped as literals: p(x, x.a > 2) passes the comparison *node* (always truthy, never equal to a bool) instead of its value per binding, "
                 "so satisfying assignments are dropped or others reported")
+    # what the parameter receives is the argument the caller wrote: a symbolic argument is kept as it is, a concrete one is wrapped - itself,
+    # not a copy, a conversion or a normalised form - so that the function sees the very object a plain call would see (identity tests,
+    # containers the caller fills later or the function records into)
+    from ..dtable import explore, Sym, App, term
+
+    paths = explore(prog, f, [Sym("self")], self_type=var.qual, max_paths=400, generic_loops=True)
+    stores = 0
+    bad = None
+    for val, out, calls in paths:
+        for x in calls:
+            if not (isinstance(x, App) and x.fn == "setitem" and len(x.args) == 3 and term(x.args[0]) == "self._child_vars_"):
+                continue
+            stores += 1
+            elem = term(x.args[1]).replace(", 0)", ", 1)") if term(x.args[1]).startswith("item(elem(") else None
+            v = x.args[2]
+            if elem is None:
+                bad = bad or f"the key {term(x.args[1])[:60]} is not the keyword of the argument"
+            elif isinstance(v, App) and v.fn == "Literal":
+                if not (v.args and term(v.args[0]) == elem):
+                    bad = bad or f"the literal wraps {term(v.args[0])[:80] if v.args else 'nothing'}, not the argument {elem}"
+            elif term(v) != elem:
+                bad = bad or f"the parameter gets {term(v)[:80]}, not the argument {elem}"
+    if stores == 0:
+        raise AnalysisError("ARG-SYMBOLIC: no path of _update_child_vars_from_kwargs_ records an argument in _child_vars_")
+    r.check(bad is None, "Variable._update_child_vars_from_kwargs_#the-argument-itself", site(f), f"{stores} stores on {len(paths)} paths",
+            "every parameter gets the caller's argument itself (wrapped as a literal when it is concrete)",
+            f"{bad}: the function is evaluated with another object than the one the call was written with - an identity test against it fails, a container the caller fills "
+            "before evaluate() is seen empty, what the function records into it is lost - while the concrete call f(*args) still sees the caller's object")
     return r
 
 
